@@ -253,6 +253,9 @@ impl<'a> Hist<'a> {
             })
             .collect();
         cli.sort();
+        // a short reply that has not come out by the time its step has settled never will (its flow was gone): it must not
+        // lend its label to a later reply of the same length
+        self.short_replies.clear();
         let (u, v) = self.mux.relayed();
         format!("S[{}] C[{}] g{} t{} o- u{} v{} f{}", srv.join(","), cli.join(","), self.mux.gauge(), self.mux.flows(), u, v, self.mux.finished() as u8)
     }
